@@ -4,20 +4,31 @@ HARNESS = "h_c15"
 KEEP_FIRST = 1          # the `mode` line
 TRUSTED = [
     "Lean 4 kernel; axioms of every theorem audited (propext, Classical.choice, Quot.sound at most)",
-    "hand-written model lean/CppUModel/Model/Failable.lean, tied to src/CppUTest/TestMemoryAllocator.cpp "
-    "(FailableMemoryAllocator, LocationToFailAllocNode) and src/CppUTest/TestHarness_c.cpp (countdown, strdup/strndup/calloc) "
-    "by the h_c15 correspondence of this run",
-    "translate/extract_failable.py: regenerates NO_COUNTDOWN / OUT_OF_MEMORRY and checks the shape of shouldFail, "
-    "clearFailedAllocs, countdown, set_out_of_memory(_countdown), set_not_out_of_memory, cpputest_malloc_location, "
-    "strdup_alloc, cpputest_calloc_location",
+    "translate/extract_failable_code.py (token-level C front end + symbolic execution): regenerates Gen/FailableCode.lean from the bodies of "
+    "LocationToFailAllocNode::{init, failAtAllocNumber, failNthAllocAt, shouldFail}, FailableMemoryAllocator::{constructor initialisers, "
+    "failAllocNumber, failNthAllocAt, alloc_memory, checkAllFailedAllocsWereDone, clearFailedAllocs} and of cpputest_malloc_set_out_of_memory, "
+    "_set_not_out_of_memory, _set_out_of_memory_countdown, countdown, cpputest_malloc_location, cpputest_malloc_count_reset/get_count, the calloc "
+    "overflow guard; every regenerated definition is proved equal to the hand model (gen_*_eq) and the Lean driver EXECUTES the regenerated "
+    "definitions against the real code in this run's correspondence, so a translator error shows up as a disagreement",
+    "idioms the translator recognises rather than translates: the cursor walk of alloc_memory (visit every node, unlink + free the firing ones, "
+    "keep the others), the free-all loop of clearFailedAllocs, 'new node in front of head_'; statement lists only compared: strdup_alloc, "
+    "cpputest_strdup/strndup_location, test_harness_c_strlen, the tail of cpputest_calloc_location, the forwarding wrappers",
+    "hand-written parts of lean/CppUModel/Model/Failable.lean (mallocOver: the leak detector hands size/file/line to the current malloc allocator "
+    "and NULL back; content of strdup/strndup/calloc results; realloc/free under the null allocator), tied by the h_c15 correspondence of this run",
     "the real allocation behind a non-designated request succeeds (platform malloc under ASan, small sizes)",
 ]
 ASSUMPTIONS = [
-    "fewer than 2^31 allocations / designations (the C++ counters are int; the model uses unbounded naturals)",
+    "fewer than 2^31 allocations / designations (the C++ counters are int; the model uses unbounded naturals); line numbers below 2^31 "
+    "(checkAllFailedAllocsWereDone prints the line through (int))",
     "failNthAllocAt is called with a non-NULL file (a NULL file makes the node a global-index designation)",
     "LP64 (size_t is 64 bit) for the calloc overflow test",
     "which calls consume a countdown tick and count in malloc_count: every cpputest_malloc/strdup/strndup and every calloc whose "
     "product does not overflow, failing ones included; cpputest_realloc and cpputest_free never (proved on the model, judged by the oracle)",
+    "an allocation that the simulated out-of-memory refuses never reaches an installed FailableMemoryAllocator: it is not one of 'the allocations' "
+    "that allocator's global / local indices count (proved: out_of_memory_hides_allocation; judged by the oracle in mode fc)",
+    "cpputest_malloc_set_not_out_of_memory() called while NO out-of-memory is simulated (also: while a countdown has not expired yet) resets the "
+    "malloc allocator to the default one, i.e. it uninstalls a FailableMemoryAllocator the test had installed (theorem "
+    "stray_not_out_of_memory_resets; observed, modelled, outside the property: after such a call the oracle judges the C level only)",
     "cpputest_realloc(NULL, n) while the null allocator is current dereferences a NULL bookkeeping node inside the leak detector "
     "(confirmed crash, outside this property's statement, not driven by the harness); realloc/free of a tracked block in that state "
     "are refused with the allocator-mismatch failure (observed and modelled)",
@@ -30,7 +41,14 @@ RULE = ("mode fa: workloads of 1-60 allocations over 1-4 locations (pool: a.c tw
         "(duplicates, several at one location, zero/negative/too-late numbers), checks and clears interleaved; plus, for "
         "sampled workloads, every allocation point in turn as the single designated one, by global index and by "
         "location x local index; mode c: countdown -3..12 followed by mixed malloc/strdup/strndup/calloc calls, realloc/free "
-        "(outside the countdown; malloc_count judged after every call), set/unset out-of-memory interleaved. non-trivial = at least one failing allocation or failing check")
+        "(outside the countdown; malloc_count judged after every call), set/unset out-of-memory interleaved; mode fc (stream 'over'): the "
+        "failable allocator installed as the malloc allocator for the whole case with cpputest_malloc/strdup/strndup/calloc (\"<unknown>\":0), "
+        "cpputest_malloc_location at explicit locations and direct alloc_memory calls on top, designations by global index / at \"<unknown>\":0 / "
+        "at explicit locations, countdown, set/unset out-of-memory (unset almost only while it is simulated), checks, clears, count resets; "
+        "stream 'boundary': the last allocation and one past it, a local count that must not survive a clear, designations firing together, "
+        "global indices already in the past, INT_MAX/INT_MIN, exactly n-1 ticking calls mixed with non-ticking ones before the n-th, "
+        "re-arming the countdown under out-of-memory. The exact failure text of the check is compared. "
+        "non-trivial = at least one failing allocation or failing check")
 
 FAMS = ["d", "d", "d", "m", "n", "a"]          # explicit location: alloc_memory, malloc_location, operator new / new[] (file, line)
 PLAIN = ["p", "q", "t", "u"]                    # plain / nothrow new and new[]: the overloads report "<unknown>":0
@@ -210,7 +228,7 @@ def gen_locations(rng):
     return ops
 
 
-STRS = ["", "61", "68656c6c6f", "6162636465666768696a6b6c6d6e6f707172737475767778797a", "ff8001"]
+STRS = ["-", "61", "68656c6c6f", "6162636465666768696a6b6c6d6e6f707172737475767778797a", "ff8001"]
 
 
 def c_call(rng):
@@ -256,6 +274,141 @@ def gen_c(rng, n_cd, malformed=False):
     return ops
 
 
+def gen_fc(rng):
+    """the C-level API on top of an installed failable allocator: designations (global index, "<unknown>":0 = the location the
+    plain C calls report, and explicit locations reached through cpputest_malloc_location), countdown and set / unset
+    out-of-memory.  The generator follows the C-level state so that `notoom` is (almost) only sent while out-of-memory is
+    simulated: sent at another moment it resets the malloc allocator to the default one (see ASSUMPTIONS)."""
+    ops = ["mode fc"]
+    oom, cd = False, None
+    locs = [(5, 0), (5, 0), (rng.choice([0, 1, 2, 3]), rng.choice(LINES)), (6, 0)]
+    done = 0
+
+    def tick():
+        nonlocal oom, cd
+        if cd is not None:
+            n, k = cd
+            if n <= k + 1:
+                oom, cd = True, None
+            else:
+                cd = (n, k + 1)
+
+    for _ in range(rng.randint(3, 30)):
+        x = rng.random()
+        if x < 0.16:
+            y = rng.random()
+            if y < 0.5:
+                ops.append("failnum %d" % (done + rng.randint(1, 4)))
+            else:
+                fi, ln = rng.choice(locs)
+                ops.append("failat %d %d %d" % (rng.randint(1, 3), fi, ln))
+        elif x < 0.24:
+            n = rng.choice([0, 1, 1, 2, 3, 5, -1])
+            ops.append("cd %d" % n)
+            if n == 0:
+                oom, cd = True, None
+            elif n < 0:
+                cd = None
+            else:
+                cd = (n, 0)
+        elif x < 0.28:
+            ops.append("oom")
+            oom = True
+        elif x < 0.36:
+            if oom or rng.random() < 0.04:
+                ops.append("notoom")
+                oom, cd = False, None
+        elif x < 0.40:
+            ops.append("check")
+        elif x < 0.43:
+            ops.append("clear")
+            done = 0
+        elif x < 0.45:
+            ops.append("creset")
+        elif x < 0.50:
+            # directly, not through the malloc path: always reaches the allocator
+            fi, ln = rng.choice(locs)
+            ops.append("alloc 8 %d %d d" % (fi, ln))
+            done += 1
+        else:
+            y = rng.random()
+            if y < 0.3:
+                fi, ln = rng.choice(locs)
+                ops.append("alloc 8 %d %d %s" % (fi, ln, "M" if fi == 6 else "m"))
+            elif y < 0.5:
+                ops.append("cmalloc %d" % rng.choice([1, 7, 64]))
+            elif y < 0.7:
+                ops.append("cstrdup %s" % rng.choice(STRS))
+            elif y < 0.85:
+                ops.append("cstrndup %s %d" % (rng.choice(STRS), rng.choice([0, 1, 3, 5, 26, 100])))
+            elif y < 0.97:
+                ops.append("ccalloc %d %d" % (rng.choice([0, 1, 3, 16]), rng.choice([0, 1, 4, 32])))
+            else:
+                ops.append("ccalloc 4294967296 4294967296")
+                continue
+            tick()
+            if not oom:
+                done += 1
+    ops.append("check")
+    return ops
+
+
+def gen_boundary(rng):
+    """exact boundaries: the last allocation / one past it, a count that must not survive a clear, designations that fire
+    together (same location and number; global index and location on one allocation, neighbours in the list), global
+    indices that are already in the past when designated, INT_MAX / INT_MIN; at the C level exactly n-1 ticking calls
+    mixed with calls that must not tick, then the n-th"""
+    kind = rng.choice(["last", "clear_resets_local", "together", "past", "c_exact", "c_rearm"])
+    fi, ln = rng.choice([(0, 10), (2, 10), (1, 20), (5, 0), (6, 0)])
+    ofi, oln = rng.choice([(1, 11), (3, 10), (4, 10)])
+    fam = lambda f, l: fam_for(rng, (f, l))
+    A = lambda f, l: "alloc 8 %d %d %s" % (f, l, fam(f, l))
+    if kind == "last":
+        n = rng.randint(1, 9)
+        ops = ["mode fa", "failnum %d" % (n + rng.choice([0, 0, 1])), "failat %d %d %d" % (rng.choice([n, n + 1]), fi, ln)]
+        ops += [A(fi, ln) for _ in range(n)] + ["check"]
+    elif kind == "clear_resets_local":
+        n = rng.randint(2, 5)
+        ops = ["mode fa", "failat %d %d %d" % (n, fi, ln)] + [A(fi, ln) for _ in range(n - 1)] + ["check", "clear", "check"]
+        if rng.random() < 0.6:
+            ops.append("failat %d %d %d" % (n, fi, ln))
+        ops += [A(fi, ln) for _ in range(n)] + ["check"]
+    elif kind == "together":
+        k = rng.randint(1, 4)
+        ops = ["mode fa"]
+        pre = rng.randint(0, 2)
+        ops += [A(ofi, oln) for _ in range(pre)]
+        des = ["failat %d %d %d" % (k, fi, ln), "failat %d %d %d" % (k, fi, ln), "failnum %d" % (pre + k), "failnum %d" % (pre + k + 1)]
+        rng.shuffle(des)
+        ops += des[:rng.randint(2, 4)]
+        ops += [A(fi, ln) for _ in range(k + 2)] + ["check"]
+    elif kind == "past":
+        pre = rng.randint(1, 6)
+        ops = ["mode fa"] + [A(fi, ln) for _ in range(pre)]
+        ops += ["failnum %d" % pre, "failnum %d" % (pre + 1), "failnum %d" % rng.choice([2147483647, -2147483648, 0])]
+        ops += [A(ofi, oln), A(fi, ln), "check", "clear", "check", "failnum 1", A(fi, ln), A(fi, ln), "check"]
+    elif kind == "c_exact":
+        n = rng.randint(1, 6)
+        ops = ["mode c"] + [c_call(rng) for _ in range(rng.randint(0, 2))] + ["cd %d" % n]
+        notick = ["ccalloc 4294967296 4294967296", "crealloc 0 16", "cfree 0 0", "creset", "ccalloc 9223372036854775809 2"]
+        tick = ["cmalloc 8", "cstrdup 6162", "cstrndup 616263 2", "ccalloc 3 4", "ccalloc 0 0"]
+        for _ in range(n - 1):
+            if rng.random() < 0.5:
+                ops.append(rng.choice(notick))
+            ops.append(rng.choice(tick))
+        if rng.random() < 0.3:
+            ops += ["notoom", rng.choice(tick), rng.choice(tick)]      # cleared before it expired: nothing may fail afterwards
+        else:
+            ops += [rng.choice(notick), rng.choice(tick), rng.choice(tick), "notoom", rng.choice(tick)]
+    else:
+        n = rng.randint(1, 3)
+        tick = ["cmalloc 8", "cstrdup 6162", "cstrndup 616263 2", "ccalloc 3 4"]
+        ops = ["mode c", "cd %d" % n] + [rng.choice(tick) for _ in range(n + 1)]
+        ops += [rng.choice(["cd 2", "cd 5", "oom", "cd -1"])] + [rng.choice(tick) for _ in range(3)] + ["notoom"] + [rng.choice(tick) for _ in range(2)]
+        ops += ["cd 1", rng.choice(tick), "notoom", rng.choice(tick)]
+    return ops
+
+
 def generate(rng, tier):
     quick = tier == "quick"
     out = []
@@ -276,6 +429,10 @@ def generate(rng, tier):
     for rep in range(20 if quick else 100):
         for n_cd in range(-3, 13):
             out.append(("countdown", gen_c(rng, n_cd)))
+    for i in range(600 if quick else 6000):
+        out.append(("over", gen_fc(rng)))
+    for i in range(300 if quick else 3000):
+        out.append(("boundary", gen_boundary(rng)))
     for i in range(n // 10):
         if rng.random() < 0.6:
             out.append(("malformed", gen_fa(rng, rng.choice([2, 6, 12]), malformed=True)))
@@ -285,8 +442,9 @@ def generate(rng, tier):
 
 
 def translate(ctx):
-    from translate import extract_failable
-    return extract_failable.run()
+    from translate import extract_failable, extract_failable_code
+    problems = extract_failable.run() or []
+    return problems + (extract_failable_code.run() or [])
 
 
 def nontrivial(r):
@@ -317,6 +475,10 @@ def observe(r, rep):
             rep.count("family." + l.split()[-1])
             if l.split()[2] in ("<unknown>", "<harness>"):
                 rep.count("branch.alloc_at_" + l.split()[2].strip("<>"))
+        elif l.startswith("text "):
+            rep.count("branch.check_text_compared")
+        elif mode == "fc" and l.startswith("> notoom"):
+            rep.count("branch.fc.notoom")
         elif l.startswith("failure "):
             rep.count("branch.c.release_" + l.split()[1])
         elif l.startswith("ret zeros"):
@@ -325,22 +487,29 @@ def observe(r, rep):
             rep.count("branch.c.strdup_copy")
 
 
-LEVEL_TEXT = ("Machine-checked Lean 4 theorems over an executable model of FailableMemoryAllocator / LocationToFailAllocNode "
+LEVEL_TEXT = ("Machine-checked Lean 4 theorems (81 obligations) over an executable model of FailableMemoryAllocator / LocationToFailAllocNode "
               "and of the C-level malloc countdown, for every history of designations, allocations (any locations), checks and "
               "clears of any length: an allocation fails iff it is designated (global index since construction/clear, or local "
-              "index at its location since the designation was made); every designation is consumed exactly once (fired, cleared "
-              "or still pending - never twice, never lost); the linked list equals the designations that have not fired and "
-              "checkAllFailedAllocsWereDone reports the most recent of them, passing iff there is none; after clearFailedAllocs "
-              "the allocator behaves like a fresh one; countdown n fails exactly the allocating calls k with 0 <= n <= k; "
-              "strdup/strndup/calloc return NULL exactly when their allocation fails (calloc also on overflow). The model is "
-              "tied to the code on every run by a differential harness (real allocator, all four allocation families, real "
-              "C entry points, ASan/UBSan) and by shape checks + regenerated constants; the implementation's own observations "
-              "are judged by an oracle that evaluates the theorem's predicate on the call history.")
-LEVEL_NOTE = ("Observed by the harness, not proved: plain new / new[] report \"<unknown>\":0 and throw std::bad_alloc, the nothrow "
-              "forms and the malloc macro return NULL, the macros report the source file and line of the statement. "
-              "Trusted: Lean kernel; the hand-written model (validated against the code by this run's correspondence); the "
-              "shape-checking extractor. Observed only, not proved: that operator new turns a NULL from the allocator into "
-              "std::bad_alloc and that the tracked malloc/new paths hand file and line through to alloc_memory unchanged "
-              "(exercised by families m/n/a of the harness); byte content of strdup/strndup/calloc results (model + oracle "
-              "compare them, the copy loop itself belongs to C05). int wrap-around of the counters is outside the claim.")
-TECHNIQUE = "Lean 4 refinement/invariant proofs over an executable model + differential correspondence harness + shape-checked regenerated constants"
+              "index at its location since the designation was made) - also as one statement about the result list of a whole history "
+              "(whole_history_outcomes) and as a bound (no history fails more allocations than it designates); every designation is "
+              "consumed exactly once; the linked list equals the designations that have not fired and checkAllFailedAllocsWereDone "
+              "reports the most recent of them with the regenerated text, passing iff there is none; after clearFailedAllocs the "
+              "allocator behaves like a fresh one; countdown n fails exactly the allocating calls k with 0 <= n <= k, on top of any "
+              "installed allocator, which set_not_out_of_memory re-installs; strdup/strndup/calloc return NULL exactly when their "
+              "allocation fails, whether the countdown or an installed failable allocator refuses it (calloc also on overflow: the "
+              "regenerated guard is proved to mean product >= 2^64). The definitions these theorems are about are REGENERATED from the "
+              "function bodies of the current source on every run and proved equal to the hand model (gen_*_eq, regenerated_*); the Lean "
+              "driver executes the regenerated definitions against the real code (all allocation families, real C entry points, "
+              "ASan/UBSan), and the implementation's own observations are judged by an oracle that evaluates the theorem's predicate on "
+              "the call history.")
+LEVEL_NOTE = ("Regenerated and proved: see TRUSTED. Recognised as idioms (an edit outside the idiom is reported as 'cannot translate' and the "
+              "harness searches for a failing input): the two list loops, the node push. Observed by the harness, not proved: plain new / "
+              "new[] report \"<unknown>\":0 and throw std::bad_alloc, the nothrow forms and the malloc macro return NULL, the macros report "
+              "the source file and line of the statement; that operator new turns a NULL from the allocator into std::bad_alloc and that the "
+              "tracked malloc/new paths hand file and line through to alloc_memory unchanged (hand-modelled as mallocOver for the malloc path, "
+              "exercised by families m/M and mode fc); byte content of strdup/strndup/calloc results (model + oracle compare them, the copy "
+              "loop itself belongs to C05); UtestShell::failWith / StringFromFormat behind the check (exactly one failure and its text are "
+              "compared). int wrap-around of the counters is outside the claim.")
+TECHNIQUE = ("Lean 4 refinement/invariant proofs over an executable model whose definitions are regenerated from the C++ function bodies "
+             "(token-level translator + symbolic execution) and proved equal to the hand model + differential correspondence harness "
+             "executing the regenerated definitions")
